@@ -245,13 +245,13 @@ Hypothesis Names : names_ok mods.
 Hypothesis CellsOK : forallb cell_ok cells = true.
 Hypothesis Feas : Feasible tol sys asg.
 
-Let sol := sol_of eps t mods cells asg.
+Let sol := sol_of_asg eps t mods cells asg.
 Let pmsl := problem_modules mods.
 
 Lemma gen_inv : sys = mkSys (all_decls eps t die mods cells edges) (all_cons pow32 eps t mods areas cells edges)
                 /\ no_clash mods /\ zero_div mods areas edges = false.
 Proof.
-  unfold gen_system in G. destruct (fake_clash mods) eqn:FC; [discriminate|].
+  unfold gen_system, gen_system_of in G. destruct (fake_clash mods) eqn:FC; [discriminate|].
   destruct (zero_div mods areas edges) eqn:Z; [discriminate|]. cbn [orb] in G. injection G as E.
   repeat split; auto. apply fake_clash_false. exact FC.
 Qed.
@@ -273,11 +273,11 @@ Proof. intro H. destruct (decl_ok _ H) as [L U]. cbn in L, U. split; [apply L|ap
 (* what get_value reads *)
 Lemma sa_pm pm c : In pm pmsl -> sa sol (mname pm) c = eval asg (a_ent eps t cells pm c).
 Proof.
-  intro H. unfold sol, sol_of, a_ent. cbn [sa]. unfold pms. rewrite (find_pm mods Names NC pm H).
+  intro H. unfold sol, sol_of_asg, a_ent. cbn [sa]. unfold pms. rewrite (find_pm mods Names NC pm H).
   destruct (model_a eps t cells pm c); reflexivity.
 Qed.
 Lemma sa_hard h c : In h (hards mods) -> sa sol (mname h) c = asg (VA (mname h) c).
-Proof. intro H. unfold sol, sol_of. cbn [sa]. unfold pms. rewrite (find_pm_hard mods Names NC h H). reflexivity. Qed.
+Proof. intro H. unfold sol, sol_of_asg. cbn [sa]. unfold pms. rewrite (find_pm_hard mods Names NC h H). reflexivity. Qed.
 
 Lemma pm_entry_range pm c : In pm pmsl -> (c < List.length cells)%nat ->
   0 <= eval asg (a_ent eps t cells pm c) /\ eval asg (a_ent eps t cells pm c) <= 1.
@@ -285,8 +285,9 @@ Proof.
   intros H Hc. unfold a_ent. destruct (model_a eps t cells pm c) as [v|] eqn:MA; cbn [eval].
   - eapply model_a_range; eauto.
   - apply unit_bounds. unfold all_decls. apply in_or_app. right. apply in_or_app. left.
-    apply in_flat_map. exists pm. split; [exact H|]. unfold a_decls. apply in_flat_map.
-    destruct (in_icells cells c Hc) as [cl Hcl]. exists (c, cl). split; [exact Hcl|]. cbn [fst]. rewrite MA. left. reflexivity.
+    apply in_flat_map. exists (ent_of eps t cells pm). split; [apply in_map; exact H|]. unfold a_decls_of. apply in_flat_map.
+    destruct (in_icells cells c Hc) as [cl Hcl]. exists (c, cl). split; [exact Hcl|].
+    cbn [fst snd ent_of]. unfold a_ent. rewrite MA. left. reflexivity.
 Qed.
 
 Lemma hard_decl_in h d : In h (hards mods) -> In d (hard_decls die cells h) ->
@@ -328,7 +329,7 @@ Lemma link_in h c : In h (hards mods) -> (c < List.length cells)%nat ->
   In (link_con eps t cells h c) (all_cons pow32 eps t mods areas cells edges).
 Proof.
   intros H Hc. unfold all_cons. apply in_or_app. right. apply in_or_app. right. apply in_or_app. left.
-  apply in_flat_map. exists h. split; [exact H|]. unfold hard_cons.
+  apply in_flat_map. exists h. split; [exact H|]. unfold hard_cons_of, link_con.
   pose proof (hard_rects_nonempty h H) as NE. unfold fake_modules.
   destruct (mrects h) as [|r rs]; [congruence|]. cbn [indexed_from map combine].
   apply in_or_app. right. apply in_or_app. left.
@@ -350,7 +351,7 @@ Proof.
       rewrite (sa_hard m c Hh). apply hard_entry_range; auto.
     + rewrite (sa_pm m c (soft_in_pms m Hm K)). apply pm_entry_range; auto. apply soft_in_pms; auto.
   - (* movable centres in the die box *)
-    intros m Hm Fx. unfold sol, sol_of. cbn [sx sy]. rewrite (find_mod mods Names m Hm), Fx.
+    intros m Hm Fx. unfold sol, sol_of_asg. cbn [sx sy]. rewrite (find_mod mods Names m Hm), Fx.
     destruct (movable_hard m) eqn:K.
     + assert (Hh : In m (hards mods)) by (apply in_hards; auto).
       apply box_of_decls; apply (hard_decl_in m); auto; unfold hard_decls; cbn [app In]; auto.
@@ -365,20 +366,20 @@ Proof.
     { apply sum_le3. intros m Hm. destruct (movable_hard m) eqn:K.
       - assert (Hh : In m (hards mods)) by (apply in_hards; auto).
         rewrite (sa_hard m c Hh). pose proof (con_ok _ (link_in m c Hh Hc)) as L.
-        unfold holds, link_con in L. cbn [crel clhs crhs eval] in L. rewrite eval_esum, map_map in L.
-        destruct L as [L _]. exact L.
+        unfold holds, link_con, link_con_of in L. cbn [crel clhs crhs eval] in L. rewrite eval_esum, !map_map in L.
+        cbn [snd ent_of] in L. destruct L as [L _]. exact L.
       - rewrite (sa_pm m c (soft_in_pms m Hm K)). unfold F. qlra. }
     rewrite <- sum_pms, sum_hards in S1.
-    pose proof (con_ok _ (cap_in c Hc)) as C. unfold holds, cap_con in C. cbn [crel clhs crhs eval] in C.
-    rewrite eval_esum, map_map in C. unfold pms in C. fold pmsl in C. unfold F in S1. fold pmsl in S1.
+    pose proof (con_ok _ (cap_in c Hc)) as C. unfold holds, cap_con, cap_con_of in C. cbn [crel clhs crhs eval] in C.
+    rewrite eval_esum, !map_map in C. cbn [snd ent_of] in C. unfold pms in C. fold pmsl in C. unfold F in S1. fold pmsl in S1.
     unfold sys_tol.
     generalize dependent (Qcsum (map (fun x => eval asg (a_ent eps t cells x c)) pmsl)).
     generalize (Qcsum (map (fun _ : module => tol) (hards mods))).
     generalize (Qcsum (map (fun m => sa sol (mname m) c) mods)). intros. qlra.
   - (* fixed centres are the floats the code stored *)
-    intros m Hm Fx. unfold sol, sol_of. cbn [sx sy]. rewrite (find_mod mods Names m Hm), Fx. auto.
+    intros m Hm Fx. unfold sol, sol_of_asg. cbn [sx sy]. rewrite (find_mod mods Names m Hm), Fx. auto.
   - (* constants are returned unchanged *)
-    intros pm c v Hpm Hc MA. unfold sol, sol_of. cbn [sa]. unfold pms. rewrite (find_pm mods Names NC pm Hpm), MA.
+    intros pm c v Hpm Hc MA. unfold sol, sol_of_asg. cbn [sa]. unfold pms. rewrite (find_pm mods Names NC pm Hpm), MA.
     reflexivity.
 Qed.
 End Main.
@@ -489,4 +490,146 @@ Proof.
   - intros c Hc. rewrite forallb_forall in C. specialize (C c Hc). unfold holdsb, holds in *.
     destruct (crel c); [qb2p; exact C|qb2p; exact C|].
     apply andb_true_iff in C. destruct C as [C1 C2]. qb2p. split; assumption.
+Qed.
+
+(* ------------------------------------------------------------------ *)
+(* the generators only read the rows at the cells of the allocation:   *)
+(* tabulating the rows (Cases/CmpC10Sys.v) gives the same system       *)
+(* ------------------------------------------------------------------ *)
+Section Ext.
+Variable pow32 : Qc -> Qc.
+Variables (die : Rect) (mods : list module) (areas : alloc) (cells : list cell)
+          (edges : list (list string)).
+Variables mk mk' : module -> ent.
+Hypothesis Efst : forall m, fst (mk m) = fst (mk' m).
+Hypothesis Esnd : forall m c, (c < List.length cells)%nat -> snd (mk m) c = snd (mk' m) c.
+
+Lemma icells_lt ic : In ic (icells cells) -> (fst ic < List.length cells)%nat.
+Proof.
+  destruct ic as [c cl]. unfold icells. intro H. apply in_indexed_from in H. destruct H as [_ H].
+  rewrite Nat.sub_0_r in H. cbn [fst]. apply nth_error_Some. congruence.
+Qed.
+
+Lemma flat_map_ext_in' {A B} (f g : A -> list B) l : (forall x, In x l -> f x = g x) -> flat_map f l = flat_map g l.
+Proof.
+  induction l as [|x l IH]; intro H; [reflexivity|]. cbn [flat_map]. rewrite (H x (or_introl eq_refl)).
+  f_equal. apply IH. intros y Hy. apply H. right. exact Hy.
+Qed.
+
+Lemma cellmap_ext {B} (F : nat * cell -> expr -> B) m :
+  map (fun ic => F ic (snd (mk m) (fst ic))) (icells cells) = map (fun ic => F ic (snd (mk' m) (fst ic))) (icells cells).
+Proof. apply map_ext_in. intros ic Hic. rewrite (Esnd _ _ (icells_lt ic Hic)). reflexivity. Qed.
+
+Lemma a_decls_ext m : a_decls_of cells (mk m) = a_decls_of cells (mk' m).
+Proof.
+  unfold a_decls_of. apply flat_map_ext_in'. intros ic Hic. rewrite (Esnd _ _ (icells_lt ic Hic)). reflexivity.
+Qed.
+Lemma area_con_ext m : area_con_of areas cells (mk m) = area_con_of areas cells (mk' m).
+Proof.
+  unfold area_con_of. rewrite Efst.
+  rewrite (cellmap_ext (fun ic e => EMul (EC (area (crect (snd ic)))) e) m). reflexivity.
+Qed.
+Lemma centx_con_ext m : centx_con_of areas cells (mk m) = centx_con_of areas cells (mk' m).
+Proof.
+  unfold centx_con_of. rewrite Efst.
+  rewrite (cellmap_ext (fun ic e => EMul (EC (area (crect (snd ic)) * cx (crect (snd ic)))) e) m). reflexivity.
+Qed.
+Lemma centy_con_ext m : centy_con_of areas cells (mk m) = centy_con_of areas cells (mk' m).
+Proof.
+  unfold centy_con_of. rewrite Efst.
+  rewrite (cellmap_ext (fun ic e => EMul (EC (area (crect (snd ic)) * cy (crect (snd ic)))) e) m). reflexivity.
+Qed.
+Lemma disp_con_ext m : disp_con_of pow32 areas cells (mk m) = disp_con_of pow32 areas cells (mk' m).
+Proof.
+  unfold disp_con_of. rewrite Efst.
+  rewrite (cellmap_ext (fun ic e => EMul (EMul (EC (area (crect (snd ic)))) e)
+                          (EAdd (ESqr (ESub (x_ent (fst (mk' m))) (EC (cx (crect (snd ic))))))
+                                (ESqr (ESub (y_ent (fst (mk' m))) (EC (cy (crect (snd ic)))))))) m). reflexivity.
+Qed.
+Lemma module_cons_ext m : module_cons_of pow32 areas cells (mk m) = module_cons_of pow32 areas cells (mk' m).
+Proof.
+  unfold module_cons_of. rewrite area_con_ext, centx_con_ext, centy_con_ext, disp_con_ext, Efst. reflexivity.
+Qed.
+Lemma fake_disp_ext m r : fake_disp_con_of cells (mk m) r = fake_disp_con_of cells (mk' m) r.
+Proof.
+  unfold fake_disp_con_of. rewrite Efst.
+  rewrite (cellmap_ext (fun ic e =>
+             EMul (EMul (EC (area (crect (snd ic)))) e)
+                  (if Qcltb (rw r) (rh r)
+                   then EAdd (ESqr (EMul (EC (rh r / rw r)) (ESub (x_ent (fst (mk' m))) (EC (cx (crect (snd ic)))))))
+                             (ESqr (ESub (y_ent (fst (mk' m))) (EC (cy (crect (snd ic))))))
+                   else EAdd (ESqr (ESub (x_ent (fst (mk' m))) (EC (cx (crect (snd ic))))))
+                             (ESqr (EMul (EC (rw r / rh r)) (ESub (y_ent (fst (mk' m))) (EC (cy (crect (snd ic)))))))))
+             m). reflexivity.
+Qed.
+
+Lemma rigid_cons_ext flip (l : list (module * Rect)) :
+  rigid_cons_of cells flip (map (fun q => (mk (fst q), snd q)) l) =
+  rigid_cons_of cells flip (map (fun q => (mk' (fst q), snd q)) l).
+Proof.
+  induction l as [|[m r] l IH]; [reflexivity|]. cbn [map rigid_cons_of fst snd].
+  rewrite IH, fake_disp_ext, !Efst. f_equal.
+  rewrite !flat_map_concat_map, !map_map. cbn [fst snd]. f_equal. apply map_ext. intros [m2 r2]. cbn [fst snd].
+  rewrite !Efst. reflexivity.
+Qed.
+
+Lemma combine_map_l {A B C} (f : A -> B) (l : list A) (l2 : list C) :
+  combine (map f l) l2 = map (fun q => (f (fst q), snd q)) (combine l l2).
+Proof. revert l2. induction l as [|x l IH]; intros [|y l2]; cbn [map combine fst snd]; try reflexivity. rewrite IH. reflexivity. Qed.
+
+Lemma link_con_ext m c : (c < List.length cells)%nat ->
+  link_con_of m (map mk (fake_modules m)) c = link_con_of m (map mk' (fake_modules m)) c.
+Proof.
+  intro Hc. unfold link_con_of. rewrite !map_map. f_equal. f_equal. apply map_ext. intro fm. apply Esnd. exact Hc.
+Qed.
+
+Lemma hard_cons_ext m : hard_cons_of cells mk m = hard_cons_of cells mk' m.
+Proof.
+  unfold hard_cons_of. cbv zeta. rewrite !combine_map_l, rigid_cons_ext.
+  destruct (combine (fake_modules m) (mrects m)) as [|[fm0 r0] rest]; [reflexivity|]. cbn [map fst snd].
+  rewrite !Efst.
+  assert (Hm : map (fun ic => link_con_of m (map mk (fake_modules m)) (fst ic)) (icells cells) =
+               map (fun ic => link_con_of m (map mk' (fake_modules m)) (fst ic)) (icells cells)).
+  { apply map_ext_in. intros ic Hic. apply link_con_ext. apply icells_lt. exact Hic. }
+  rewrite Hm. reflexivity.
+Qed.
+
+Lemma cap_con_ext l c : (c < List.length cells)%nat -> cap_con_of (map mk l) c = cap_con_of (map mk' l) c.
+Proof. intro Hc. unfold cap_con_of. rewrite !map_map. f_equal. f_equal. apply map_ext. intro m. apply Esnd. exact Hc. Qed.
+
+Theorem gen_system_of_ext :
+  gen_system_of pow32 die mods areas cells edges mk = gen_system_of pow32 die mods areas cells edges mk'.
+Proof.
+  unfold gen_system_of. destruct (fake_clash mods || zero_div mods areas edges); [reflexivity|]. cbv zeta.
+  f_equal. f_equal.
+  - unfold all_decls_of. f_equal. f_equal. rewrite !flat_map_concat_map, !map_map. f_equal. apply map_ext.
+    intro m. apply a_decls_ext.
+  - unfold all_cons_of. f_equal; [|f_equal; [|f_equal]].
+    + apply map_ext_in. intros ic Hic. apply cap_con_ext. apply icells_lt. exact Hic.
+    + rewrite !flat_map_concat_map, !map_map. f_equal. apply map_ext. intro m. apply module_cons_ext.
+    + apply flat_map_ext. intro m. apply hard_cons_ext.
+Qed.
+End Ext.
+
+(* the tabulated rows used by the comparator *)
+Definition tab_ent (eps t : Qc) (cells : list cell) (m : module) : ent :=
+  let row := map (fun ic => a_ent eps t cells m (fst ic)) (icells cells) in (m, fun c => nth c row (EC 0)).
+Definition gen_system_fast pow32 eps t die mods areas cells edges : option system :=
+  gen_system_of pow32 die mods areas cells edges (tab_ent eps t cells).
+
+Lemma nth_indexed_map {A B} (g : nat -> B) (d : B) (l : list A) : forall i c, (c < List.length l)%nat ->
+  nth c (map (fun ic => g (fst ic)) (indexed_from i l)) d = g (i + c)%nat.
+Proof.
+  induction l as [|x l IH]; intros i c Hc; cbn [List.length] in Hc; [lia|].
+  cbn [indexed_from map]. destruct c as [|c]; cbn [nth fst].
+  - f_equal. lia.
+  - rewrite IH by lia. f_equal. lia.
+Qed.
+
+Theorem gen_system_fast_same pow32 eps t die mods areas cells edges :
+  gen_system_fast pow32 eps t die mods areas cells edges = gen_system pow32 eps t die mods areas cells edges.
+Proof.
+  unfold gen_system_fast, gen_system. apply gen_system_of_ext.
+  - intro m. reflexivity.
+  - intros m c Hc. unfold tab_ent, ent_of, icells. cbn [snd]. rewrite (nth_indexed_map (a_ent eps t cells m)); auto.
 Qed.
